@@ -131,6 +131,8 @@ class Builder:
             ns['__annotations__'] = ann
         if d['k'] == 'source':
             ids = tuple(d['ids'])
+            if getattr(self, 'ids_wrap', None):
+                ids = tuple(self.ids_wrap(i) for i in ids)      # ids as objects of the harness' own key class
             from connectome import meta
             fname = f'{key}.ids' + ('' if not getattr(self, 'ids_by_value', True) else '[' + ','.join(map(str, ids)) + ']')
             # `ids_list`: the ids function returns a (new, unsorted as given) list instead of a tuple
